@@ -462,7 +462,15 @@ async fn on_commitment_revocation(
 
     let proxy = plugin.state().lock().unwrap().proxy.clone();
 
-    for (tower_id, net_addr, status) in towers {
+    for (tower_id, net_addr, _) in towers {
+        // The towers are dealt with one after another, waiting for each one's answer: the status read before the first request
+        // may be outdated by now (another notification being handled at the same time may have flagged the tower as misbehaving,
+        // the user may have abandoned it). Read it again.
+        let status = match plugin.state().lock().unwrap().towers.get(&tower_id) {
+            Some(tower) => tower.status,
+            None => continue,
+        };
+
         // A commitment revocation may be notified more than once. If this tower has already acknowledged the appointment
         // (we hold its signed receipt), or rejected it (it is held as invalid), there is nothing left to do, whatever state
         // the tower is in now.
